@@ -50,14 +50,14 @@ class Lock:
 
 # ---------------------------------------------------------------- Go side
 
-def build_go(race=False):
-    """Rebuild the harness binaries from /repo's current working tree (hooks on: -tags verif)."""
+def build_go(names, race=False):
+    """Rebuild the named harness binaries from /repo's current working tree (hooks on: -tags verif)."""
     with Lock("go.lock"):
         sumsrc = os.path.join(REPO, "go.sum")
         if os.path.exists(sumsrc):
             shutil.copyfile(sumsrc, os.path.join(HARNESS, "go.sum"))
         outs = []
-        for name in props.GO_BINARIES:
+        for name in names:
             out = os.path.join(BUILD, name + ("-race" if race else ""))
             cmd = ["go", "build", "-tags", "verif"] + (["-race"] if race else []) + ["-o", out, "./cmd/" + name]
             env = goenv()
@@ -70,9 +70,20 @@ def build_go(race=False):
         return outs
 
 
-def regen_generated():
+def all_generated():
+    seen, out = set(), []
+    for P in props.PROPS.values():
+        for name, target in P.get("generated", []):
+            if target not in seen:
+                seen.add(target)
+                out.append((name, target))
+    return out
+
+
+def regen_generated(gens):
     """Translators: regenerate the Coq files derived from /repo's sources (written only when changed)."""
-    for name, target in props.GENERATED:
+    build_go(sorted(set(n for n, _ in gens)))
+    for name, target in gens:
         rc, log = run([os.path.join(BUILD, name), "-repo", REPO, "-out", os.path.join(COQ, target)], cwd=HARNESS, env=goenv(), timeout=300)
         if rc != 0:
             raise HarnessError("translator %s failed:\n%s" % (name, log[-4000:]))
@@ -256,8 +267,8 @@ def decide(pid, P, tier, seed, scratch, t0, replay_sel):
     notes = []
 
     # -- 1. translators + proofs
-    build_go(race=False)
-    regen_generated()
+    regen_generated(all_generated())
+    build_go([P["binary"]])
     forbidden = scan_forbidden()
     targets = ["Properties/%s.vo" % pid] + [m.replace(".", "/") + ".vo" for m in P.get("run_modules", [])]
     ok, mlog = make_targets(targets)
@@ -290,11 +301,11 @@ def decide(pid, P, tier, seed, scratch, t0, replay_sel):
     stats_all, shards = [], []
     race = tier == "thorough" and P.get("race")
     if race:
-        build_go(race=True)
+        build_go([P["binary"]], race=True)
     for drv in P["drivers"]:
         out = os.path.join(scratch, drv)
         os.makedirs(out)
-        exe = os.path.join(BUILD, "nriharness" + ("-race" if race else ""))
+        exe = os.path.join(BUILD, P["binary"] + ("-race" if race else ""))
         cmd = [exe, "-out", out, "-seed", str(seed), "-tier", tier, "-repo", REPO, drv]
         env = goenv()
         env["VERIF_PROPERTY"] = pid
@@ -424,7 +435,7 @@ def decide(pid, P, tier, seed, scratch, t0, replay_sel):
     with open(os.path.join(EVIDENCE, "%s.json" % pid), "w") as f:
         json.dump(ev, f, indent=1, default=str)
         f.write("\n")
-    for l in kf_lines:
+    for l in sorted(set(kf_lines)):
         print(l)
     for l in sorted(set(out_lines)):
         print(l)
